@@ -77,6 +77,20 @@ Section Replay.
         exists nd3. rewrite <- app_assoc. auto.
   Qed.
 
+  (* calls without entry flags (everything --describe prints) take the plain mknode path *)
+  Lemma fs_add_plain fs name mode uid gid rdev extra :
+    add fs (CAdd name mode uid gid rdev 0 extra) =
+    if kind_is mode c_S_IFLNK && match extra with None => true | Some _ => false end then None
+    else match name with
+         | [] => add_at fs [] mode uid gid rdev extra
+         | _ => match getp fs [] (split_slash name) with
+                | None => None
+                | Some (fs1, parent) =>
+                  add_at fs1 (parent ++ [last (split_slash name) []]) mode uid gid rdev extra
+                end
+         end.
+  Proof. reflexivity. Qed.
+
   (* one entry below existing directories, nothing in its way *)
   Lemma add_entry fs uroot anc name mode uid gid target devno :
     chain_ok (anc ++ [name]) -> mode_ok mode ->
@@ -84,7 +98,7 @@ Section Replay.
     add fs (expected_call uroot (join (anc ++ [name])) mode uid gid target devno) =
     Some (fs ++ [entry_node uroot (anc ++ [name]) mode uid gid target devno]).
   Proof.
-    intros Hc Hm Hd Hf. unfold expected_call, fs_add. cbn [N.eqb negb].
+    intros Hc Hm Hd Hf. unfold expected_call. rewrite fs_add_plain.
     assert (L : (kind_is mode c_S_IFLNK &&
                  match (if is_k mode c_S_IFREG
                         then Some match uroot with
@@ -217,7 +231,7 @@ Section Replay.
     destruct Hwf as (-> & (p & Hp & Hm) & Huid & Hgid & Hch).
     assert (F : fmt_bits mode = c_S_IFDIR) by (subst mode; apply mode_facts; [left; reflexivity|exact Hp]).
     cbn [root_calls root_nodes]. fold (children_calls uroot []). fold (children_nodes uroot []).
-    cbn [run_calls fs_add N.eqb negb].
+    cbn [run_calls]. rewrite fs_add_plain.
     assert (kind_is mode c_S_IFLNK = false) as -> by (unfold kind_is; fold (fmt_bits mode); rewrite F; reflexivity).
     cbn [andb]. unfold add_at, fs_init. cbn [fs_find f_path implicit_dir path_eqb].
     fold (implicit_dir def_mode def_uid def_gid []). rewrite implicit_root_is_dir.
